@@ -286,6 +286,9 @@ func (e *Engine) scanGlobals() {
 }
 
 func (e *Engine) immutableGlobal(g *ssa.Global) bool {
+	if g.Pos().IsValid() && strings.HasPrefix(filepath.Base(e.Fset.Position(g.Pos()).Filename), "zz_verif_") {
+		return false // ghost state declared in a contract file
+	}
 	e.scanGlobals()
 	return !e.storedGlobals[g]
 }
